@@ -377,6 +377,48 @@ theorem euler_step_cb_safe {σ : Type} [DecidableEq σ] (keys : List σ) (comps 
           exact this)
       exact ⟨ub, f, rfl, rfl, hsafe⟩
 
+/-- **the callback of a stirred-tank system** (`get_odesys(rsys, cstr=True)`, feed ratio and feed concentrations passed as
+    parameters `p`): the same guarantee — `0 ≤ h ≤ 1` and `y + h·f(y, p)` inside `[0, upper_conc_bounds(y)]` — although the
+    right-hand side now contains the feed term `F·(c_feed − c)` and the elemental bounds are no physical limit of an open system. -/
+theorem euler_step_cb_cstr_safe {σ : Type} [DecidableEq σ] (keys : List σ) (comps : List (EqSolve.Comp α))
+    (rs : List (Reaction σ α)) (cs : Cstr σ) (p : List (σ × α)) (y : List α) (h : α)
+    (hrun : maxEulerStepCbCstr keys comps rs cs p y = .ok h)
+    (hy : ∀ v ∈ y, 0 ≤ v) (hc : ∀ comp ∈ comps, ∀ p ∈ comp, p.1 ≠ 0 → 0 < p.2) :
+    ∃ ub f, EqSolve.upperConcBounds comps y = .ok ub ∧ fvecCstr keys rs cs p y = .ok f ∧ 0 ≤ h ∧ h ≤ 1 ∧
+      ∀ (i : ℕ) yi fi, y[i]? = some yi → f[i]? = some fi →
+        0 ≤ yi + h * fi ∧ ∀ u, ub[i]? = some (some u) → yi + h * fi ≤ u := by
+  unfold maxEulerStepCbCstr at hrun
+  by_cases hemp : rs.isEmpty = true
+  · rw [if_pos hemp] at hrun; cases hrun
+  rw [if_neg hemp] at hrun
+  cases hub : EqSolve.upperConcBounds comps y with
+  | error e => rw [hub] at hrun; simp at hrun
+  | ok ub =>
+    rw [hub] at hrun
+    simp only at hrun
+    cases hf : fvecCstr keys rs cs p y with
+    | error e => rw [hf] at hrun; simp at hrun
+    | ok f =>
+      rw [hf] at hrun
+      simp only at hrun
+      have hylen : y.length = comps.length := by
+        unfold EqSolve.upperConcBounds at hub
+        split_ifs at hub with hl
+        exact not_not.mp hl
+      have hsafe := euler_step_safe y f ub h hrun
+        (fun i yi hyi => hy yi (List.mem_of_getElem? hyi))
+        (by
+          intro i yi u hyi hu
+          have hil : i < y.length := (List.getElem?_eq_some_iff.mp hyi).1
+          have hic : i < comps.length := hylen ▸ hil
+          have := upper_bound_valid comps y y ub hub hylen hy
+            (fun comp hcomp p hp hk => (hc comp hcomp p hp hk).le) (fun _ _ => rfl) i hic u hu
+            (fun p hp hk => hc _ (List.getElem_mem _) p hp hk)
+          have hyi' : y[i] = yi := (List.getElem?_eq_some_iff.mp hyi).2
+          rw [← hyi']
+          exact this)
+      exact ⟨ub, f, rfl, rfl, hsafe⟩
+
 end Step
 
 /-! ## the Euler update carries the element totals: `hinv` / `htot` derived from balance (C05) -/
@@ -603,6 +645,24 @@ theorem quasi_positive_of_no_inactive_reactants (c : σ → R) (rs : List (React
   have := hin r hr
   unfold netStoich at hn
   omega
+
+/-- **quasi_positive with a feed** (`rates(..., cstr_fr_fc=…)`, the right-hand side of `get_odesys(rsys, cstr=True)`): with a
+    non-negative feed ratio and non-negative feed concentrations (they are entries of the same variables function `c`) the
+    stirred-tank term `F·(c_feed s − c s)` only adds `F·c_feed s ≥ 0` on the face `c s = 0`. -/
+theorem quasi_positive_cstr (c : σ → R) (rs : List (Reaction σ R)) (keys? : Option (List σ)) (cs : Cstr σ) (s : σ)
+    (hk : ∀ r ∈ rs, 0 ≤ r.param) (hc : ∀ x, 0 ≤ c x) (hs : c s = 0)
+    (hact : ∀ r ∈ rs, netStoich r s < 0 → 0 < coef r.reac s) (hnd : (dkeys cs.fc).Nodup) :
+    0 ≤ valueAt (sysRates c rs keys? (some cs)) s := by
+  have h0 := quasi_positive c rs keys? s hk hc hs hact
+  simp only [sysRates] at h0 ⊢
+  rw [valueAt_addFeed c _ cs hnd s]
+  apply add_nonneg h0
+  unfold feedTerm
+  cases dget? cs.fc s with
+  | none => exact le_refl _
+  | some fck =>
+    simp only [hs, sub_zero]
+    exact mul_nonneg (hc _) (hc _)
 
 /-- **outside the hypothesis the claim is false**: `A + (C) → B` (written `"A + (C) -> B; 1/2"`, `C` an inactive reactant)
     consumes `C` at the rate `k·[A]` also when no `C` is left; at `c = (A: 1, B: 0, C: 0)` the generated right-hand side
@@ -842,6 +902,12 @@ example : maxEulerStepCb exKeys exComps exRxns [1 / 2, 1, 2, 0] = .ok (1 / 2001)
 example : maxEulerStepCb exKeys exComps exRxns [1 / 2, 1, 0, 0] = .ok 1 := by decide +kernel
 example : firstOrderMatrix exKeys exRxns =
     [[0, 1, 2000, 0], [0, -1 / 2, 2000, 0], [0, 0, -2001, 1 / 4], [0, 0, 1, -1 / 4]] := by decide +kernel
+/-- stirred tank: feed ratio 1/2, feed of X1 = 2: `f = rates + F·(c_feed − c)`; the feed of X3b makes its derivative positive -/
+example : fvecCstr exKeys exRxns ⟨"feedratio", [("X1", "fc_X1"), ("X2", "fc_X2"), ("X3", "fc_X3"), ("X3b", "fc_X3b")]⟩
+    [("feedratio", 1 / 2), ("fc_X1", 2), ("fc_X2", 0), ("fc_X3", 0), ("fc_X3b", 1)] [1 / 2, 1, 0, 0] = .ok [7 / 4, -1, 0, 1 / 2] := by
+  decide +kernel
+example : maxEulerStepCbCstr exKeys exComps exRxns ⟨"feedratio", [("X1", "fc_X1"), ("X2", "fc_X2"), ("X3", "fc_X3"), ("X3b", "fc_X3b")]⟩
+    [("feedratio", 1 / 2), ("fc_X1", 2), ("fc_X2", 0), ("fc_X3", 0), ("fc_X3b", 1)] [1 / 2, 1, 0, 0] = .ok 1 := by decide +kernel
 /-- an unbalanced system gets no callback (`extra['max_euler_step_cb'] is None`) -/
 example : callbackAvailable ["X1", "X2"] [[(1, 1)], [(1, 2)]]
     [({ reac := [("X2", 1)], prod := [("X1", 1)], param := 1 } : Reaction String ℚ)] = false := by decide +kernel
